@@ -211,7 +211,7 @@ theorem LiveInv_stepC_b (hS : SafeInv s) (hV : LiveInv s) (hw : WellCfg s.cfg) (
       obtain ⟨h1, h2, h3⟩ := Rest_afterResults hV.pr hV.rp hV.ct (s0 := { s with lock := none, cpc := .lockRel }) (by constructor <;> rfl) rfl
         (by rw [hpc]; rfl) call hc0 hwf
       refine ⟨LockI_release hV.lk (by rw [hpc]; rfl) f7 ?_ f1, h1, h2, ?_, h3⟩
-      · rcases hcl with hh | hh | hh <;> rw [hh] <;> rfl
+      · rcases hcl with hh | hh | hh | ⟨wid, hh⟩ <;> rw [hh] <;> rfl
       · exact ConsI_afterResults _ call hc0 hwf hun
     · rename_i hnb
       have hb : s.batch = [] := by
@@ -242,7 +242,7 @@ theorem LiveInv_stepC_b (hS : SafeInv s) (hV : LiveInv s) (hw : WellCfg s.cfg) (
       obtain ⟨h1, h2, h3⟩ := Rest_afterResults hV.pr hV.rp hV.ct (s0 := { s with resQ := r, batch := [], cpc := .getBlock })
         (by constructor <;> rfl) rfl (by rw [hpc]; rfl) call hc0 hwf
       refine ⟨LockI_congr hV.lk f7 ?_ f1, h1, h2, ConsI_afterResults _ call hc0 hwf hun, h3⟩
-      rw [hpc]; rcases hcl with hh | hh | hh <;> rw [hh] <;> rfl
+      rw [hpc]; rcases hcl with hh | hh | hh | ⟨wid, hh⟩ <;> rw [hh] <;> rfl
     · rename_i i r hq
       simp only [Option.some.injEq] at h; subst h
       have hc0 : ({ s with resQ := r, batch := [i], cpc := .getBlock } : St).cur = some call := hcall
@@ -251,7 +251,7 @@ theorem LiveInv_stepC_b (hS : SafeInv s) (hV : LiveInv s) (hw : WellCfg s.cfg) (
       obtain ⟨h1, h2, h3⟩ := Rest_afterResults hV.pr hV.rp hV.ct (s0 := { s with resQ := r, batch := [i], cpc := .getBlock })
         (by constructor <;> rfl) rfl (by rw [hpc]; rfl) call hc0 hwf
       refine ⟨LockI_congr hV.lk f7 ?_ f1, h1, h2, ConsI_afterResults _ call hc0 hwf hun, h3⟩
-      rw [hpc]; rcases hcl with hh | hh | hh <;> rw [hh] <;> rfl
+      rw [hpc]; rcases hcl with hh | hh | hh | ⟨wid, hh⟩ <;> rw [hh] <;> rfl
   case flowClear =>
     simp only [Option.some.injEq] at h; subst h
     have hwk := woken_false_of hV (by rw [hpc]; rfl)
@@ -450,9 +450,43 @@ theorem LiveInv_stepC_c (hL : LInv s) (hV : LiveInv s) (h : stepC s = some s')
       · cases h
   case done => cases h
 
-theorem LiveInv_stepC (hS : SafeInv s) (hL : LInv s) (hV : LiveInv s) (hw : WellCfg s.cfg) (h : stepC s = some s') :
-    LiveInv s' := by
+/-- the mid-call `until_all_ready()`: the next slot, or back into the result loop -/
+theorem LiveInv_stepC_d (hV : LiveInv s) (hM : MidI s) (h : stepC s = some s')
+    {i wid : Nat} (hpc : s.cpc = .midReady i wid) : LiveInv s' := by
+  simp only [stepC, hpc] at h
+  split at h
+  · cases h
+  · split at h
+    · split at h
+      · simp only [Option.some.injEq] at h; subst h
+        apply LiveInv_move hV (by samec) (by rfl) (by rfl) <;> (try dsimp only) <;> try cls hpc
+      · simp only [Option.some.injEq] at h; subst h
+        have hwk := woken_false_of hV (by rw [hpc]; rfl)
+        have hflow := hM.flow i wid hpc
+        rcases afterBatch_cases s with ⟨c1, h1, h2, h3, h4⟩ | ⟨c1, h1, h2, h3, h4⟩ | ⟨h1, h4⟩ <;> rw [h4]
+        · apply LiveInv_of hV (by constructor <;> rfl) (by rfl) (by exact id) <;> (try dsimp only) <;> try cls hpc
+          · exact LockI_congr hV.lk rfl (by cls hpc) rfl
+          · apply ConsI_gen hV.cs (by rfl) (by rfl) (by rfl) (by rfl) <;> (try dsimp only) <;> try cls hpc
+            · exact hwk
+            · exact h3
+        · apply LiveInv_of hV (by constructor <;> rfl) (by rfl) (by exact id) <;> (try dsimp only) <;> try cls hpc
+          · exact LockI_congr hV.lk rfl (by cls hpc) rfl
+          · apply ConsI_gen hV.cs (by rfl) (by rfl) (by rfl) (by rfl) <;> (try dsimp only) <;> try cls hpc
+            exact hwk
+        · apply LiveInv_of hV (by constructor <;> rfl) (by rfl) (by exact id) <;> (try dsimp only) <;> try cls hpc
+          · exact LockI_congr hV.lk rfl (by cls hpc) rfl
+          · apply ConsI_gen hV.cs (by rfl) (by rfl) (by rfl) (by rfl) <;> (try dsimp only) <;> try cls hpc
+            · exact hwk
+            · intro hfr
+              exfalso
+              obtain ⟨c, hc1, hc2⟩ := hflow hfr
+              rw [h1 c hc1] at hc2; cases hc2
+    · cases h
+
+theorem LiveInv_stepC (hS : SafeInv s) (hL : LInv s) (hV : LiveInv s) (hM : MidI s) (hw : WellCfg s.cfg)
+    (h : stepC s = some s') : LiveInv s' := by
   cases hpc : s.cpc
+  case midReady i wid => exact LiveInv_stepC_d hV hM h hpc
   case rdSending | rdDataCnt | qsize1 | lockAcq | qsize2 | getNowait | lockRel | getBlock | flowClear | flowIsSet | flowSet =>
     exact LiveInv_stepC_b hS hV hw h (by rw [hpc]; rfl)
   case fStopSet | fJoin | rPutNone | rStopSet | rJoin | exitPut | exitJoin | done =>
